@@ -32,6 +32,9 @@ def run_demo():
     if d.endswith('.sh'):
         r = subprocess.run(['sh', f'{out}/{d}', f'{wt}/target/debug/n2'], capture_output=True, env=env, cwd='/tmp/sv/tmp', timeout=600)
         return r.returncode, (r.stdout + r.stderr).decode('utf-8', 'replace')[-600:]
+    if d.endswith('.py'):
+        r = subprocess.run(['python3', f'{out}/{d}', f'{wt}/target/debug/n2'], capture_output=True, env=env, cwd='/tmp/sv/tmp', timeout=900)
+        return r.returncode, (r.stdout + r.stderr).decode('utf-8', 'replace')[-600:]
     if d.endswith('.rs'):
         # a test file for tests/: copy it in, run it, remove it
         shutil.copy(f'{out}/{d}', f'{wt}/tests/{d}')
